@@ -198,7 +198,7 @@ func init() {
 				Weights: withW(loginWeights, map[string]int{"otp_login": 20, "otp_add": 10, "otp_clear": 2, "replay": 12, "totp_validate": 8, "sms_validate": 8,
 					"recovery_regen": 3, "totp_remove": 2, "sms_remove": 2, "register": 0, "recover_start": 0, "recover_end": 0, "confirm": 0, "oauth2_start": 0, "oauth2_callback": 0,
 					"advance": 6}),
-				BadSecret: 40, ThreshGaps: 10, SmallGaps: 25,
+				BadSecret: 40, FaultRate: []int{0, 0, 60}[r.Intn(3)], ThreshGaps: 10, SmallGaps: 25,
 				Thresholds: func(c *Config) []time.Duration {
 					return []time.Duration{10 * time.Second, 30 * time.Second, 30 * time.Second}
 				}}
@@ -257,7 +257,7 @@ func init() {
 				Templates: []string{"recover_flow", "recover_flow", "remember_then_reset", "remember_cycle", "op_reset"},
 				Weights: withW(loginWeights, map[string]int{"recover_start": 8, "recover_end": 10, "op_update_password": 8, "probe": 10, "drop_session": 6,
 					"stale_cookie": 6, "copy_cookie": 3, "oauth2_start": 1, "oauth2_callback": 1}),
-				BadSecret: 30, ThreshGaps: 8, SmallGaps: 20}
+				BadSecret: 30, FaultRate: []int{0, 0, 60}[r.Intn(3)], ThreshGaps: 8, SmallGaps: 20}
 		},
 		Oracle:        newC06Oracle,
 		Nontrivial:    anyReach("c06_change_"),
@@ -280,11 +280,15 @@ func init() {
 			return c
 		},
 		Gen: func(r *Rng, tier string) *genProfile {
-			return &genProfile{MaxSteps: steps(tier, 45, 120), Default: 0, FollowUp: 40, Template: 45,
-				Templates: []string{"recover_flow", "confirm_flow", "token_near_miss", "token_near_miss", "register_flow"},
+			tpl := []string{"recover_flow", "confirm_flow", "token_near_miss", "token_near_miss", "register_flow"}
+			if tier == "thorough" {
+				tpl = append(tpl, "token_flip_sweep")
+			}
+			return &genProfile{MaxSteps: steps(tier, 45, 160), Default: 0, FollowUp: 40, Template: 45,
+				Templates: tpl,
 				Weights: withW(loginWeights, map[string]int{"recover_start": 10, "recover_end": 14, "confirm": 14, "op_start_confirm": 8, "register": 5, "replay": 6,
 					"recover_end_get": 2, "oauth2_start": 0, "oauth2_callback": 0, "otp_login": 1, "totp_validate": 1, "sms_validate": 1}),
-				BadSecret: 55, ThreshGaps: 25, SmallGaps: 20,
+				BadSecret: 55, FaultRate: []int{0, 0, 60}[r.Intn(3)], ThreshGaps: 25, SmallGaps: 20,
 				Thresholds: func(c *Config) []time.Duration { return []time.Duration{c.RecoverDur} }}
 		},
 		Oracle:        newC05Oracle,
@@ -339,7 +343,7 @@ func init() {
 				Templates: []string{"adversary_sms", "adversary_sms", "adversary_codes", "adversary_codes", "recover_flow", "login_ok", "otp_flow"},
 				Weights: withW(loginWeights, map[string]int{"totp_validate": 10, "sms_validate": 12, "login": 24, "replay": 3, "advance": 8,
 					"totp_setup": 1, "sms_setup": 1, "register": 0, "oauth2_start": 0, "oauth2_callback": 0, "confirm": 0}),
-				BadSecret: 45, ThreshGaps: 25, SmallGaps: 30,
+				BadSecret: 45, FaultRate: []int{0, 0, 60}[r.Intn(3)], ThreshGaps: 25, SmallGaps: 30,
 				Thresholds: func(c *Config) []time.Duration {
 					return []time.Duration{10 * time.Second, 30 * time.Second, 60 * time.Second}
 				}}
@@ -372,7 +376,7 @@ func init() {
 			return &genProfile{MaxSteps: steps(tier, 40, 100), Default: 0, FollowUp: 65, Template: 45,
 				Templates: []string{"gate_between_steps", "gate_between_steps", "gated_paths", "gated_paths", "oauth_gated", "fail_burst", "remember_cycle", "login_ok"},
 				Weights:   withW(loginWeights, map[string]int{"op_lock": 6, "op_unlock": 3, "op_start_confirm": 5, "probe": 10, "confirm": 5, "advance": 6}),
-				BadSecret: 25, ThreshGaps: 20, SmallGaps: 20,
+				BadSecret: 25, FaultRate: []int{0, 0, 60}[r.Intn(3)], ThreshGaps: 20, SmallGaps: 20,
 				Thresholds: func(c *Config) []time.Duration { return []time.Duration{c.LockDuration, c.LockWindow} }}
 		},
 		Oracle:     newC03Oracle,
@@ -400,7 +404,7 @@ func init() {
 				Weights: withW(loginWeights, map[string]int{"totp_setup": 6, "totp_confirm": 6, "totp_remove": 6, "sms_setup": 6, "sms_confirm": 6, "sms_remove": 6,
 					"recovery_regen": 2, "everify_start": 5, "everify_end": 6, "totp_setup_get": 2, "sms_setup_get": 2, "recover_start": 0, "recover_end": 0, "otp_login": 2,
 					"drop_session": 4, "probe": 3}),
-				BadSecret: 40, ThreshGaps: 15, SmallGaps: 25,
+				BadSecret: 40, FaultRate: []int{0, 0, 50}[r.Intn(3)], ThreshGaps: 15, SmallGaps: 25,
 				Thresholds: func(c *Config) []time.Duration { return []time.Duration{10 * time.Second, 30 * time.Second} }}
 		},
 		Oracle:        newC13Oracle,
@@ -518,7 +522,7 @@ func init() {
 				Templates: []string{"oauth_flow", "oauth_flow", "oauth_cross", "oauth_remember", "login_ok"},
 				Weights: withW(loginWeights, map[string]int{"oauth2_start": 20, "oauth2_callback": 24, "replay": 10, "logout": 5, "login": 5, "probe": 3,
 					"recover_start": 0, "recover_end": 0, "register": 1, "totp_validate": 1, "sms_validate": 1, "op_lock": 2, "op_unlock": 1}),
-				BadSecret: 35, ThreshGaps: 5, SmallGaps: 15, Redir: 15}
+				BadSecret: 35, FaultRate: []int{0, 0, 60}[r.Intn(3)], ThreshGaps: 5, SmallGaps: 15, Redir: 15}
 		},
 		Oracle:     newC14Oracle,
 		Nontrivial: anyReach("c14_login"),
